@@ -53,7 +53,7 @@ def chunkings(n, r, ctx):
         if n <= 26 or ctx.thorough:
             out += [[i, j, n - i - j] for i in range(1, n) for j in range(1, n - i)]
     out.append([1] * n)
-    for _ in range(ctx.scale(3, 20)):
+    for _ in range(ctx.scale(3, 8)):
         cuts, left = [], n
         while left > 0:
             k = min(left, r.choice([1, 1, 2, 3, 5, 8, 13, 64, 128, r.randrange(1, left + 1)]))
@@ -84,7 +84,7 @@ def run(ctx):
             scripts.append((script_for(fb, cuts, [3, 0, 0, 0, 0]), [(a, fb)], fb, cuts))
     # response phase
     plan = [(1, 6, False), (1, 8, False), (2, 4, False), (2, 4, True), (3, 3, True), (3, 2, False)]
-    plan += [(r.randrange(1, 9), r.choice([3, 8, 60, 200, 2030]), r.random() < 0.5) for _ in range(ctx.scale(40, 600))]
+    plan += [(r.randrange(1, 9), r.choice([3, 8, 60, 200, 2030]), r.random() < 0.5) for _ in range(ctx.scale(40, 240))]
     plan += [(1, 2030, False), (8, 128, True), (8, 128, False)]
     for nframes, maxlen, shared in plan:
         cs, cr = r.randrange(8), r.randrange(8)
@@ -92,7 +92,9 @@ def run(ctx):
         frs, stream = make_stream(r, nframes, maxlen, shared, cs, cr)
         cks = chunkings(len(stream), r, ctx)
         if len(stream) > 40:
-            cks = cks[:1] + cks[-ctx.scale(4, 21):]
+            cks = cks[:1] + cks[-ctx.scale(4, 9):]
+            if len(stream) > 3000:
+                cks = [c for c in cks if len(c) < 2500]          # no one-byte schedules for 16 KB streams (quadratic in the unary model)
         elif not ctx.thorough and len(cks) > 400:
             cks = cks[:80] + r.sample(cks[80:], 320)
         for cuts in cks:
@@ -100,7 +102,7 @@ def run(ctx):
     # correspondence: same scripts on the model
     big = [s for s in scripts if len(s[2]) > 3000]
     small = [s for s in scripts if len(s[2]) <= 3000]
-    ctx.corr([("conn_script", s[0]) for s in small + big[:ctx.scale(6, 60)]], impl, "conn_script",
+    ctx.corr([("conn_script", s[0]) for s in small + big[:ctx.scale(6, 24)]], impl, "conn_script",
              nontrivial=lambda a, out: True, decisive=None)
     # search on the implementation
     for ops, frs, stream, cuts in scripts:
